@@ -2,6 +2,7 @@ package rules
 
 import (
 	"fmt"
+	"strings"
 
 	"golang.org/x/tools/go/ssa"
 
@@ -65,6 +66,46 @@ func runC30(c *core.Ctx) {
 		"every path to a return passes cacher.Remove(key)",
 		"a return is reachable without cacher.Remove: "+c.P.PathString(path))
 	c.Sites += len(calls) + 1
+	// full-history storer: evicting an old-epoch persister from its LRU must never close a persister that is
+	// (or has become) active: Close is reached only after the scan over activePersisters found no match
+	if ev := optM(c, "storage/pruning", "FullHistoryPruningStorer", "onEvicted"); ev != nil {
+		closes := core.CallsIn(ev, func(in ssa.Instruction, cc *ssa.CallCommon) bool { return core.CallDesc(cc).Name == "Close" })
+		var scan *core.Loop
+		for _, l := range core.Loops(ev) {
+			if src := l.RangeSource(); src != nil && isFieldOf(src, "activePersisters") {
+				scan = l
+			}
+		}
+		for i, cl := range closes {
+			ok := false
+			if scan != nil {
+				// the only way from entry to Close is through the scan's exhaustion edge, and the scan leaves early (return) on an epoch match
+				exh := map[[2]int]bool{}
+				for k, s2 := range scan.Header.Succs {
+					if !scan.Body[s2] {
+						exh[[2]int{scan.Header.Index, k}] = true
+					}
+				}
+				q := core.PathQ{Fn: ev, ViaEdge: func(b *ssa.BasicBlock, s2 int) bool { return exh[[2]int{b.Index, s2}] }, Target: func(in ssa.Instruction, _ *ssa.BasicBlock) bool { return in == cl }}
+				esc, _ := q.Escape()
+				matchExit := false
+				for _, e := range scan.Exits() {
+					if e.From == scan.Header {
+						continue
+					}
+					for _, f := range core.FactsAt(e.From.Succs[e.Succ]) {
+						if f.Op == "==" && strings.Contains(f.String(), ".epoch") {
+							matchExit = true
+						}
+					}
+				}
+				ok = esc == nil && matchExit
+			}
+			c.Check(ok, "C30/active-persister-not-closed", fmt.Sprintf("FullHistoryPruningStorer.onEvicted/Close#%d", i), cl.Pos(),
+				"a persister is closed on eviction only after the scan of activePersisters found no persister of the same epoch",
+				"an evicted old-epoch persister is closed without checking that its epoch is not active: data put in that (now active) epoch becomes unreadable")
+		}
+	}
 }
 
 func firstPos(b *ssa.BasicBlock) (p tokenPos) {
